@@ -112,7 +112,7 @@ Fixpoint expect_in_use (before evs : list event) (outs : list out) : list out :=
   | e :: es, o :: os =>
       (match e, o with
        | Restart, Restored l =>
-           if saved_is_current before then Restored (overlay (in_use before []) l) else o
+           if saved_is_current before then Restored (overlay (in_use_restorable before) l) else o
        | _, _ => o
        end) :: expect_in_use (before ++ [e]) es os
   | _, _ => outs
@@ -134,7 +134,7 @@ Proof.
   destruct outs as [|o os]; [reflexivity|]. cbn [expect_in_use]. f_equal.
   - destruct e; try reflexivity. destruct o; try reflexivity.
     destruct (saved_is_current before); [|reflexivity].
-    rewrite in_use_nil_run; [reflexivity|]. now apply Forall_app in H as [H _].
+    unfold in_use_restorable. rewrite in_use_nil_run; [reflexivity|]. now apply Forall_app in H as [H _].
   - apply IH. now rewrite <- app_assoc.
 Qed.
 
